@@ -287,11 +287,18 @@ pub fn c10(ctx: &Ctx, rep: &mut Report) {
         } else if !ctx.miri && rng.chance(1, 150) {
             // large sequences: beyond any internal chunk size a writer may use, lengths that are
             // multiples of the width, powers of two; also very large widths
-            let width = *rng.pick(&[1usize, 7, 60, 64, 70, 80, 100, 255, 256, 1000, 2047, 2048, 4096, 65535, 65536, 70000]);
-            let base = match rng.below(4) {
+            let width = if rng.chance(1, 2) {
+                // every power of two and its neighbours (a writer's internal buffer size is one of them)
+                ((1usize << rng.range(5, 17)) as i64 + rng.range(0, 2) as i64 - 1) as usize
+            } else {
+                *rng.pick(&[1usize, 7, 60, 64, 70, 80, 100, 255, 256, 1000, 2047, 2048, 4096, 65535, 65536, 70000])
+            };
+            let base = match rng.below(5) {
                 0 => 1usize << rng.range(13, 18),
                 1 => rng.range(8193, 40_000),
                 2 => rng.range(40_000, 200_000),
+                // one to three full lines, give or take a byte
+                3 => width * rng.range(1, 3) + rng.range(0, 2),
                 _ => rng.range(2, 9) * 8192,
             };
             let n = match rng.below(3) {
@@ -325,11 +332,24 @@ pub fn c10(ctx: &Ctx, rep: &mut Report) {
         } else {
             (0..4).map(|_| (rng.next(), rng.next() & rng.next())).collect()
         };
-        let whole_wrapped = {
+        let whole_wrapped = match guarded(|| {
             let mut o = vec![];
             fasta::write_head(&mut o, &head).unwrap();
             fasta::write_wrap_seq(&mut o, &seq, width).unwrap();
             o
+        }) {
+            Ok(o) => o,
+            Err(c) => {
+                let mut j = ctx.replay_json(idx);
+                j["seq_len"] = json!(seq.len());
+                j["width"] = json!(width);
+                crate::m_basic::caught_violation(rep, &c, "write_head + write_wrap_seq of the whole sequence", j);
+                if ctx.only.is_some() {
+                    break;
+                }
+                idx += 1;
+                continue;
+            }
         };
         let mut outputs: Vec<Vec<u8>> = vec![];
         for (mask, empties) in &masks {
